@@ -346,3 +346,42 @@ func staticCallees(fn *ssa.Function) []*ssa.Function {
 
 const segSliceType = "[]*" + rootPkgPath + ".Segment"
 const dropsSliceType = "[]" + roaringBitmapPtr
+
+// forwardFieldLoad: v is a load of field f of an object allocated in the same
+// function (a struct literal that is filled in as the function proceeds) and
+// exactly one store to that field precedes it: the stored value.  Otherwise v.
+func forwardFieldLoad(v ssa.Value) ssa.Value {
+	for depth := 0; depth < 4; depth++ {
+		ld, ok := v.(*ssa.UnOp)
+		if !ok || ld.Op != token.MUL {
+			return v
+		}
+		fa, ok := ld.X.(*ssa.FieldAddr)
+		if !ok {
+			return v
+		}
+		al, ok := fa.X.(*ssa.Alloc)
+		if !ok {
+			return v
+		}
+		var st *ssa.Store
+		n := 0
+		for _, ref := range *al.Referrers() {
+			fa2, ok := ref.(*ssa.FieldAddr)
+			if !ok || fa2.Field != fa.Field {
+				continue
+			}
+			for _, r2 := range *fa2.Referrers() {
+				if s, ok := r2.(*ssa.Store); ok && s.Addr == ssa.Value(fa2) {
+					st = s
+					n++
+				}
+			}
+		}
+		if n != 1 || !(st.Block() == ld.Block() && instrIndex(st) < instrIndex(ld) || st.Block() != ld.Block() && st.Block().Dominates(ld.Block())) {
+			return v
+		}
+		v = st.Val
+	}
+	return v
+}
